@@ -15,13 +15,13 @@ variable {α : Type} [Field α] [LinearOrder α] [IsStrictOrderedRing α]
 /-- the Gramian does not see an orthogonal change of coordinates: `(JQ)(JQ)ᵀ = J Jᵀ` -/
 theorem gram_mulRight_orthogonal (J Q : Mat α) (m n : Nat) (hJ : MatWF J m n) (hQ : Orthogonal Q n) :
     gram (mulRight n J Q) = gram J := by
-  sorry
+  exact Eqv.gram_mulRight J Q m n hJ hQ
 
 /-- a combination of the rows of `JQ` is the same combination of the rows of `J`, times `Q` -/
 theorem combine_mulRight (J Q : Mat α) (m n : Nat) (hJ : MatWF J m n) (hQ : MatWF Q n n) (w : Vec α)
     (hw : w.length = m) :
     combine n (mulRight n J Q) w = combine n Q (combine n J w) := by
-  sorry
+  exact Eqv.combine_mulRight' J Q m n hJ hQ w hw
 
 /-- GENERIC EQUIVARIANCE: any aggregator of the form `A(J) = Jᵀ W(J Jᵀ)` — weights computed from the
     Gramian only — commutes with every orthogonal change of coordinates: `A(J Q) = A(J) Q` -/
@@ -29,79 +29,84 @@ theorem gramian_aggregator_equivariant (W : Mat α → Vec α) (J Q : Mat α) (m
     (hJ : MatWF J m n) (hQ : Orthogonal Q n) (hW : (W (gram J)).length = m) :
     combine n (mulRight n J Q) (W (gram (mulRight n J Q))) =
       combine n Q (combine n J (W (gram J))) := by
-  sorry
+  rw [Eqv.gram_mulRight J Q m n hJ hQ]
+  exact Eqv.combine_mulRight' J Q m n hJ (Eqv.orthogonal_matWF Q n hQ) _ hW
 
 /-- instances: MGDA … -/
 theorem mgda_equivariant (J Q : Mat α) (m n : Nat) (hm : 0 < m) (hJ : MatWF J m n)
     (hQ : Orthogonal Q n) (epsilon : α) (K : Nat) :
     combine n (mulRight n J Q) (mgdaWeights (gram (mulRight n J Q)) m (1 / (m : α)) epsilon K).1 =
       combine n Q (combine n J (mgdaWeights (gram J) m (1 / (m : α)) epsilon K).1) := by
-  sorry
+  have _ := hm
+  rw [Eqv.gram_mulRight J Q m n hJ hQ]
+  exact Eqv.combine_mulRight' J Q m n hJ (Eqv.orthogonal_matWF Q n hQ) _ (Eqv.mgdaWeights_length _ m _ _ K)
 
 /-- … PCGrad (for every draw of the projection orders) … -/
 theorem pcgrad_equivariant (J Q : Mat α) (m n : Nat) (hJ : MatWF J m n) (hQ : Orthogonal Q n)
     (perms : List (List Nat)) :
     combine n (mulRight n J Q) (pcgradWeights (gram (mulRight n J Q)) perms).1 =
       combine n Q (combine n J (pcgradWeights (gram J) perms).1) := by
-  sorry
+  rw [Eqv.gram_mulRight J Q m n hJ hQ]
+  exact Eqv.combine_mulRight' J Q m n hJ (Eqv.orthogonal_matWF Q n hQ) _
+    (by rw [Eqv.pcgradWeights_length, Eqv.gram_length, hJ.1])
 
 /-- … UPGrad and DualProj: the weights are unchanged (`s`, the largest singular value, is invariant) -/
 theorem qp_weights_invariant (J Q : Mat α) (m n : Nat) (hJ : MatWF J m n) (hQ : Orthogonal Q n)
     (s normEps regEps : α) (u : Vec α) :
     upgradWeights (mulRight n J Q) s normEps regEps u = upgradWeights J s normEps regEps u ∧
     dualprojWeights (mulRight n J Q) s normEps regEps u = dualprojWeights J s normEps regEps u := by
-  sorry
+  simp only [upgradWeights, dualprojWeights, Eqv.regNormGram_mulRight J Q m n hJ hQ, and_self]
 
 /-- … IMTL-G (row norms `d` are invariant) -/
 theorem imtlg_weights_invariant (J Q : Mat α) (m n : Nat) (hJ : MatWF J m n) (hQ : Orthogonal Q n)
     (d : Vec α) (guard : α) :
     imtlgWeights (mulRight n J Q) d guard = imtlgWeights J d guard := by
-  sorry
+  simp only [imtlgWeights, Eqv.gram_mulRight J Q m n hJ hQ]
 
 /-- ConFIG is not written as `weights @ matrix`, but its result IS a linear combination of the rows -/
 theorem config_in_rowspan (J : Mat α) (m n : Nat) (hJ : MatWF J m n) (d w : Vec α)
     (hd : d.length = m) (x : Vec α) (h : configVec J d w n = some x) :
     ∃ c : Vec α, c.length = m ∧ x = combine n J c := by
-  sorry
+  exact Eqv.config_rowspan J m n hJ d w hd x h
 
 /-! ### column layout: permutations and all-zero columns -/
 
 /-- appending an all-zero column changes neither the Gramian (hence no Gramian-based weights) … -/
 theorem gram_append_zero_col (J : Mat α) : gram (J.map (· ++ [0])) = gram J := by
-  sorry
+  exact Eqv.gram_append_zero J
 
 /-- … nor the other coordinates of a combination of rows; the new coordinate is zero -/
 theorem combine_append_zero_col (J : Mat α) (m n : Nat) (hJ : MatWF J m n) (w : Vec α)
     (hw : w.length = m) :
     combine (n + 1) (J.map (· ++ [0])) w = combine n J w ++ [0] := by
-  sorry
+  exact Eqv.combine_append_zero J m n hJ w hw
 
 /-- TrimmedMean is column-wise: permuting the columns permutes the result … -/
 theorem trimmedMean_col_perm [Inhabited α] (b m n : Nat) (J : Mat α) (hJ : MatWF J m n)
     (p : List Nat) (hp : p.length = n) (hlt : ∀ i ∈ p, i < n) :
     trimmedMean b n (J.map (permV p)) = permV p (trimmedMean b n J) := by
-  sorry
+  exact Eqv.trimmedMean_col_perm' b m n J hJ p hp hlt
 
 /-- … and an all-zero column yields a zero coordinate without touching the others -/
 theorem trimmedMean_append_zero_col [Inhabited α] (b m n : Nat) (J : Mat α) (hJ : MatWF J m n) :
     trimmedMean b (n + 1) (J.map (· ++ [0])) = trimmedMean b n J ++ [0] := by
-  sorry
+  exact Eqv.trimmedMean_append_zero b m n J hJ
 
 /-- GradDrop is column-wise too (the uniform sample being permuted along with the columns) -/
 theorem graddrop_col_perm [Inhabited α] (m n : Nat) (J : Mat α) (hJ : MatWF J m n) (leak U : Vec α)
     (hU : U.length = n) (p : List Nat) (hp : p.length = n) (hlt : ∀ i ∈ p, i < n) :
     graddrop (J.map (permV p)) leak (permV p U) n = permV p (graddrop J leak U n) := by
-  sorry
+  exact Eqv.graddrop_col_perm' m n J hJ leak U hU p hp hlt
 
 /-- combinations of rows commute with column permutations (weights held fixed) -/
 theorem combine_col_perm [Inhabited α] (m n : Nat) (J : Mat α) (hJ : MatWF J m n) (w : Vec α)
     (hw : w.length = m) (p : List Nat) (hp : p.length = n) (hlt : ∀ i ∈ p, i < n) :
     combine n (J.map (permV p)) w = permV p (combine n J w) := by
-  sorry
+  exact Eqv.combine_col_perm' m n J hJ w hw p hp hlt
 
 /-- the Gramian does not see a permutation of the columns -/
 theorem gram_col_perm [Inhabited α] (m n : Nat) (J : Mat α) (hJ : MatWF J m n) (p : List Nat)
     (hp : p.Perm (List.range n)) : gram (J.map (permV p)) = gram J := by
-  sorry
+  exact Eqv.gram_col_perm' m n J hJ p hp
 
 end Tjd.Props.C08
